@@ -623,6 +623,27 @@ func c18c(c *Ctx) {
 				c.OK(key, pos, pretty(operand)+": exempted — "+e.Reason)
 				return
 			}
+			// a private helper indexing with its parameters: the obligation is its callers'
+			if strings.Contains(operand, "$") && fn.Object() != nil && !fn.Object().Exported() {
+				sites := c.W.callsTo(fn)
+				all := len(sites) > 0
+				for _, cs := range sites {
+					caller := cs.Parent()
+					if caller == nil || !c.W.InRepo(caller) {
+						all = false
+						continue
+					}
+					sub := c.substParams(caller, cs, operand)
+					if exempt(c.W.FuncKey(caller), sub) == nil {
+						all = false
+					}
+				}
+				if all {
+					nExempt++
+					c.OK(key, pos, pretty(operand)+": the helper's callers are covered by reviewed exemptions for the operands they pass")
+					return
+				}
+			}
 			c.Bad(key, pos, pretty(operand)+" is not bounded by a dominating comparison and has no reviewed exemption (guards here: "+fmt.Sprint(prettyAll(must))+"): a crafted input could index out of range")
 		})
 	}
